@@ -136,6 +136,7 @@ Proof.
     + destruct (resolve_rv st (REph u)); [|discriminate]. cbn [obind]. intro H; inversion H; reflexivity.
     + destruct (resolve_rv st (RSto p t)); [|discriminate]. cbn [obind]. intro H; inversion H; reflexivity.
   - intro H; inversion H; subst. left. rewrite inval_nil. reflexivity.
+  - destruct (assoc r0 (refs st)) as [[| | |]|]; try discriminate; apply Hsr.
 Qed.
 
 Lemma assoc_cons_other {V} r r' (v : V) l : assoc r' l = None -> forall w, assoc r l = Some w ->
@@ -185,6 +186,7 @@ Qed.
 Theorem dead_uses_fail st r : assoc r (refs st) = Some RDead ->
   (forall r' s, step (CRefStep r' (BRef r) s) st = Fail EInvalidRef) /\
   (forall r', step (CRefUnwrap r' r) st = Fail EInvalidRef) /\
+  (forall r', step (CRefCopy r' r) st = Fail EInvalidRef) /\
   (forall r' t f, step (CRefCast r' r t f) st = Fail EInvalidRef) /\
   (forall t, step (CSetTag (BRef r) t) st = Fail EInvalidRef) /\
   (forall d s, step (CXfer (PChild (BRef r) d) s) st = Fail EInvalidRef).
@@ -283,4 +285,18 @@ Proof.
   - rewrite E. cbn [assoc]. now rewrite Z.eqb_refl.
   - destruct p as [pu pe pt pk]. cbn [r_kids] in Hp. apply peek_in in Hp.
     apply cnt_in. rewrite uuids_cnt. apply cnt_in in Hp. lia.
+Qed.
+
+(* a copy of a reference value - plain copy, argument / result of a function, stored in a field,
+   array, dictionary or optional of a non-resource holder and read back (directly or through a
+   reference to the holder) - is a usable reference to the same target, registered in the same
+   table: the invalidation theorem applies to it like to the original *)
+Theorem copy_same_target st r r0 u st' :
+  step (CRefCopy r r0) st = Done st' -> assoc r0 (refs st) = Some (REph u) ->
+  assoc r (refs st') = Some (REph u) /\ assoc r0 (refs st') = Some (REph u).
+Proof.
+  intros Hs Ha. cbn [step] in Hs. rewrite Ha in Hs.
+  destruct (set_ref_shape _ _ _ _ Hs) as [Hn E]. rewrite E. split.
+  - cbn [assoc]. now rewrite Z.eqb_refl.
+  - now apply assoc_cons_other.
 Qed.
